@@ -9,6 +9,9 @@
   proved at full strength; before them the check reported both as violations with replays.
 -/
 import IcingaProofs.C02.Core
+import IcingaProofs.C02.Ack
+import IcingaProofs.C02.System
+import IcingaProofs.C02.Flap
 
 namespace Icinga.C02
 open Icinga.C01
@@ -224,6 +227,58 @@ theorem immediate_request (c : Cfg) (hmax : 1 ≤ c.max) (s : St) (r : Res) (e :
     cases (isOK c.kind s'.state && !isOK c.kind s.core.state) <;> cases s.sup.hasState <;>
       cases e1 <;> cases e2 <;> cases e3 <;> cases e5 <;> cases e6 <;> simp [statePartOf]
 
+/-! ## The suppression reason "acknowledged" (acknowledgement set / clear / expiry)
+
+  The code keeps two attributes and clears them lazily inside `GetAcknowledgement()` when the expiry time
+  has passed; the property speaks about the acknowledgement that the operations put in force. -/
+
+/-- **ack_trace_meets_spec.**  For every sequence of acknowledgement operations (set — also on top of an
+    acknowledgement already in place —, clear, accepted results with or without a state change / a
+    recovery, reads) at non-decreasing virtual times, after every operation `IsAcknowledged()` answers
+    exactly "an acknowledgement was set, not cleared since, not ended by a state change (normal) / the
+    recovery (sticky), and its own expiry time — if it has one — has not passed": the newest
+    acknowledgement replaces the one in place, including its expiry. -/
+theorem ack_trace_meets_spec (ops : List (Int × AckOp)) (t0 : Int) (hm : monotoneFrom t0 ops = true) :
+    specAckTrace {} 0 (ackTraceOf ackCleared ops) = none :=
+  ackInv_trace ops ackCleared {} t0 0 (Or.inl ⟨rfl, rfl⟩) hm
+
+/-- **ack_without_expiry_stays_in_force.**  An acknowledgement set without expiry — whatever was in
+    place before, e.g. one with an expiry time — is reported by `IsAcknowledged()` at every later read,
+    at whatever times the reads happen and however many there are. -/
+theorem ack_without_expiry_stays_in_force (a : AckSt) (sticky : Bool) (t : Int) (reads : List Int) :
+    ∀ now ∈ reads, isAcked (reads.foldl (fun a' n => ackStep a' n .query) (ackStep a t (.set sticky 0))) now = true := by
+  have h0 : ackStep a t (.set sticky 0) = ackSet sticky 0 := by
+    cases sticky <;> simp [ackStep, getAck, ackExpired, ackSet]
+  rw [h0]
+  have hfix : ∀ (l : List Int), l.foldl (fun a' n => ackStep a' n .query) (ackSet sticky 0) = ackSet sticky 0 := by
+    intro l
+    induction l with
+    | nil => rfl
+    | cons x xs ih =>
+      have : ackStep (ackSet sticky 0) x .query = ackSet sticky 0 := by
+        cases sticky <;> simp [ackStep, getAck, ackExpired, ackSet]
+      simp only [List.foldl_cons, this, ih]
+  intro now _
+  rw [hfix]
+  cases sticky <;> simp [isAcked, getAck, ackExpired, ackSet]
+
+/-- The hypothesis of `ack_trace_meets_spec` is needed (and is what the virtual clock guarantees): with a
+    clock that runs backwards the lazily cleared attributes forget an acknowledgement that is in force. -/
+example : specAckTrace {} 0 (ackTraceOf ackCleared [(10, .set true 20), (21, .query), (15, .query)]) = some 2 := by decide
+
+/-- Non-vacuity: set with expiry, replaced by one without, read after the first one's expiry time, normal
+    acknowledgement ended by a state change, sticky one by the recovery only. -/
+example : (ackTraceOf ackCleared [(10, .set true 20), (11, .set true 0), (30, .query), (31, .result true false),
+    (32, .result true true), (33, .set false 40), (40, .query), (41, .query)]).map (·.2.2) =
+    [true, true, true, true, false, true, true, false] := by decide
+
+/-- The specification rejects a trace in which the acknowledgement without expiry that replaced one
+    expiring at 20 is gone at time 30 (the older expiry time was kept). -/
+example : specAckTrace {} 0 [(10, .set true 20, true), (11, .set true 0, true), (30, .query, false)] = some 2 := by decide
+
+/-- … and one in which a sticky acknowledgement is dropped by a change between problem states. -/
+example : specAckTrace {} 0 [(10, .set true 0, true), (11, .result true false, false)] = some 1 := by decide
+
 /-! ## Non-vacuity -/
 
 def exCfg : Cfg := { kind := .service, max := 1, volatile := false }
@@ -281,6 +336,143 @@ example : specTrace exCfg specInit
 example : specTrace exCfg specInit
     [.result true .warning .hard envClean [⟨.problem, .warning⟩] false .ok,
      .result true .critical .hard envDowntime [] true .ok] = some .remembered := by decide
+
+/-! ## Flapping detection (the toggle the property takes as given) -/
+
+/-- **flapping_ring_is_sliding_window.**  For every sequence of results the code's ring buffer with its
+    rotating index (checkable-flapping.cpp:38-96) decides exactly like a sliding window over the last
+    20 results whose state-change flags weigh 0.8 (oldest) … 1.18 (newest): same flapping state and same
+    exact ties with the threshold after every result — from any pair of related states, in particular
+    from a new object. -/
+theorem flapping_ring_is_sliding_window (fc : FlapCfg) (rs : List SState) :
+    flapRun fc {} rs = specFlapRun fc {} rs :=
+  flapRel_run fc rs {} {} ⟨by decide, by decide, by decide, by decide, rfl, rfl⟩
+
+/-- **flapping_starts_only_on_state_change.**  With `flapping_threshold_low ≤ flapping_threshold_high`: an
+    object that is not flapping and whose weighted total is not above the high threshold (true of every
+    non-flapping state the detection itself produced, second part) does not start flapping on a result
+    that repeats the previous state — so a FlappingStart can only be due on a result that changes the
+    state. -/
+theorem flapping_starts_only_on_state_change (fc : FlapCfg) (hlh : fc.low ≤ fc.high) (sf : SpecFlap) (new : SState) :
+    (sf.flapping = false → windowSum sf.window ≤ 20 * fc.high → new = sf.last →
+      (specFlapStep fc sf new).1.flapping = false) ∧
+    ((specFlapStep fc sf new).1.flapping = false → windowSum (specFlapStep fc sf new).1.window ≤ 20 * fc.high) := by
+  constructor
+  · intro hf hs hn
+    subst hn
+    have := windowSum_slide_false sf.window
+    simp only [specFlapStep, flapDecide, hf, bne_self_eq_false, Bool.false_eq_true, if_false, decide_eq_false_iff_not]
+    omega
+  · intro h
+    simp only [specFlapStep, flapDecide, decide_eq_false_iff_not] at h ⊢
+    split at h <;> omega
+
+/-- **stable_object_stops_flapping.**  After 20 consecutive results that repeat the state, the window holds
+    no state change and the object is not flapping — whatever the window, the thresholds and the
+    flapping state were before (a FlappingEnd is due then at the latest). -/
+theorem stable_object_stops_flapping (fc : FlapCfg) (sf : SpecFlap) (hlen : sf.window.length = 20) :
+    ((List.replicate 20 sf.last).foldl (fun f r => (specFlapStep fc f r).1) sf).flapping = false := by
+  have hw := window_after_stable fc 20 sf hlen (by omega)
+  have h0 : sf.window.drop 20 = [] := by rw [← hlen]; simp
+  rw [h0, List.nil_append] at hw
+  have hsplit : List.replicate 20 sf.last = List.replicate 19 sf.last ++ [sf.last] := by
+    rw [← List.replicate_succ']
+  rw [hsplit, List.foldl_append] at hw ⊢
+  simp only [List.foldl_cons, List.foldl_nil] at hw ⊢
+  rw [specFlapStep_flapping, hw]
+  have hz : windowSum (List.replicate 20 false) = 0 := windowSumFrom_replicate_false 0 20
+  rw [hz]
+  simp only [flapDecide, decide_eq_false_iff_not]
+  omega
+
+/-- Non-vacuity: a service alternating between OK and CRITICAL starts flapping at the sixth result
+    (six state changes weighing 1.08 … 1.18: 33.9 % > 30 %). -/
+example : (flapRun {} {} [.ok, .critical, .ok, .critical, .ok, .critical, .ok, .critical]).map (·.1) =
+    [false, false, false, false, false, true, true, true] := by decide
+
+/-- The hypotheses of `flapping_starts_only_on_state_change` hold of a new object. -/
+example : ({} : SpecFlap).flapping = false ∧ windowSum ({} : SpecFlap).window ≤ 20 * ({} : FlapCfg).high := by decide
+
+/-- The hypothesis of `stable_object_stops_flapping` holds of a new object (and is preserved by every result). -/
+example : ({} : SpecFlap).window.length = 20 := by decide
+
+/-- Exact ties exist (six state changes weighing 6.00 in total = 30 %): there binary64 rounding decides in the code. -/
+example : (flapDecide {} false 600).2 = true ∧ (flapDecide {} false 600).1 = false ∧ (flapDecide {} true 502).1 = true := by decide
+
+/-! ## The composed system: acknowledgement attributes + notification bookkeeping -/
+
+/-- **system_trace_meets_spec_from.**  `IsAcknowledged()` is not an input any more: for every
+    configuration, every start (bookkeeping related to the attributes, acknowledgement related to the two
+    acknowledgement attributes) and every sequence of results, handler runs, acknowledgement set (also
+    on top of one in place) and clear at non-decreasing virtual times — all other environment facts
+    arbitrary at every step — (1) the requests and the two suppression attributes satisfy the
+    specification of the property, where the environment's "acknowledged" is what the code reads from
+    its lazily expiring attributes after the result's own clearing, and (2) that value is at every
+    operation the acknowledgement in force according to the operations performed. -/
+theorem system_trace_meets_spec_from (c : Cfg) (hmax : 1 ≤ c.max) (ops : List (Int × SysOp)) :
+    ∀ (y : Sys) (sp : SpecSt) (sa : SpecAck) (t0 : Int) (i : Nat),
+      Rel c sp y.s → AckInv y.a sa t0 → sysMonotoneFrom t0 ops = true →
+      specTrace c sp ((sysTrace c y ops).filterMap (·.1)) = none ∧
+      specAckTrace sa i ((sysTrace c y ops).map (·.2)) = none := by
+  induction ops with
+  | nil => intro _ _ _ _ _ _ _ _; exact ⟨rfl, rfl⟩
+  | cons x rest ih =>
+    intro y sp sa t0 i hr ha hm
+    obtain ⟨now, op⟩ := x
+    simp only [sysMonotoneFrom, Bool.and_eq_true, decide_eq_true_eq] at hm
+    obtain ⟨s1, s2⟩ := ackInv_step y.a sa t0 now (sysAckOp c y.s op) ha hm.1
+    obtain ⟨k1, k2⟩ := sysStep_ack c y now op
+    rw [← k2] at s2
+    have hack : ∀ sp', Rel c sp' (sysStep c y now op).1.s →
+        specAckTrace sa i ((sysTrace c y ((now, op) :: rest)).map (·.2)) = none ∧
+        specTrace c sp' ((sysTrace c (sysStep c y now op).1 rest).filterMap (·.1)) = none := by
+      intro sp' hr'
+      obtain ⟨i1, i2⟩ := ih (sysStep c y now op).1 sp' _ now (i + 1) hr' s2 hm.2
+      refine ⟨?_, i1⟩
+      rw [sysTrace_cons, List.map_cons, k1, specAckTrace_cons_ok _ _ _ _ _ _ s1]
+      exact i2
+    rw [sysTrace_cons, List.filterMap_cons]
+    cases op with
+    | result r e =>
+      obtain ⟨h1, h2⟩ := result_step_meets_spec c hmax sp y.s r
+        { e with acked := ackObs y.a now (sysAckOp c y.s (.result r e)) } hr
+      obtain ⟨j1, j2⟩ := hack _ h2
+      refine ⟨?_, j1⟩
+      show specTrace c sp ((applyOp c y.s (.result r { e with acked := ackObs y.a now (sysAckOp c y.s (.result r e)) })).2 :: _) = none
+      rw [specTrace_cons_ok c sp _ _ h1]
+      exact j2
+    | fire e =>
+      obtain ⟨h1, h2⟩ := fire_step_meets_spec c sp y.s
+        { e with stateSuppressed := e.stateSuppressed || ackObs y.a now (sysAckOp c y.s (.fire e)) } hr
+      obtain ⟨j1, j2⟩ := hack _ h2
+      refine ⟨?_, j1⟩
+      show specTrace c sp ((applyOp c y.s (.fire { e with stateSuppressed := e.stateSuppressed || ackObs y.a now (sysAckOp c y.s (.fire e)) })).2 :: _) = none
+      rw [specTrace_cons_ok c sp _ _ h1]
+      exact j2
+    | ackSet st e =>
+      obtain ⟨j1, j2⟩ := hack sp hr
+      exact ⟨j2, j1⟩
+    | ackClear =>
+      obtain ⟨j1, j2⟩ := hack sp hr
+      exact ⟨j2, j1⟩
+
+/-- **system_trace_meets_spec** (from a never-checked, never-acknowledged object). -/
+theorem system_trace_meets_spec (c : Cfg) (hmax : 1 ≤ c.max) (ops : List (Int × SysOp)) (t0 : Int)
+    (hm : sysMonotoneFrom t0 ops = true) :
+    specTrace c specInit ((sysTrace c ⟨init, ackCleared⟩ ops).filterMap (·.1)) = none ∧
+    specAckTrace {} 0 ((sysTrace c ⟨init, ackCleared⟩ ops).map (·.2)) = none :=
+  system_trace_meets_spec_from c hmax ops ⟨init, ackCleared⟩ specInit {} t0 0 (rel_init c) (Or.inl ⟨rfl, rfl⟩) hm
+
+/-- Non-vacuity: CRITICAL, sticky acknowledgement expiring at 20 replaced by one without expiry, WARNING
+    (withheld: acknowledged), handler at 400 (still acknowledged: kept), clear, handler (released). -/
+example : ((sysTrace exCfg ⟨init, ackCleared⟩
+    [(1, .result ⟨.ok, 1, 1⟩ envClean), (2, .result ⟨.critical, 2, 2⟩ envClean), (3, .ackSet true 20), (4, .ackSet true 0),
+     (5, .result ⟨.warning, 5, 5⟩ envClean), (400, .fire fireClean), (401, .ackClear), (402, .fire fireClean)]).filterMap (·.1)).map notifsOf =
+    [[], [⟨.problem, .critical⟩], [], [], [⟨.problem, .warning⟩]] := by decide
+
+/-- The clock hypothesis of `system_trace_meets_spec` on the concrete run above. -/
+example : sysMonotoneFrom 0 [(1, .result ⟨.ok, 1, 1⟩ envClean), (2, .result ⟨.critical, 2, 2⟩ envClean), (3, .ackSet true 20),
+    (4, .ackSet true 0), (5, .result ⟨.warning, 5, 5⟩ envClean), (400, .fire fireClean)] = true := by decide
 
 /-! ## The handler and a concurrent result (F-C02c)
 
